@@ -47,6 +47,14 @@ def plain_env():
 _FRAME = re.compile(r'^\s*#(\d+) 0x[0-9a-f]+ in (\S+) (\S+)', re.M)
 
 
+def is_asan_compile_loop(res):
+  """True if a stalled ASan worker was spinning in the known ASan-build-only loop of mjCModel::Compile (a compile-time
+  engine error with an open stack frame: mj_deleteData's dangling-frame check raises inside the catch block and the
+  compiler's handler longjmps back into the try block). Instrumentation artefact, not a property violation."""
+  r = (res.get('report') or '') + (res.get('stderr') or '')
+  return res.get('kind') == 'stall' and 'mjCModel::Compile' in r
+
+
 def classify(report):
   """(kind, innermost frame inside the tree under test) of a sanitizer report / abort message."""
   kind = 'unknown'
@@ -89,7 +97,7 @@ def _collect_report(log_prefix, pid):
   return txt
 
 
-def _spawn(cmd, env, stem, log_prefix, timeout):
+def _spawn(cmd, env, stem, log_prefix, timeout, stall=None, watch=()):
   """Run a worker with stdout/stderr in files (no pipes: sanitizer symbolizer children may outlive the worker and keep
   a pipe open). A worker that wrote a sanitizer report but does not exit is killed after a grace period."""
   import signal
@@ -117,13 +125,27 @@ def _spawn(cmd, env, stem, log_prefix, timeout):
               continue
             if st.st_size > 0 and now - st.st_mtime > 20:
               stuck = True
-      if stuck or now - t0 > timeout:
+      stalled = False
+      if stall:
+        last = t0
+        for f in watch:
+          try:
+            last = max(last, os.stat(f).st_mtime)
+          except OSError:
+            pass
+        stalled = now - last > stall
+      if stuck or stalled or now - t0 > timeout:
+        bt = ''
+        if stalled and not stuck:
+          bt = _gdb_bt(p.pid)
         try:
           os.killpg(p.pid, signal.SIGKILL)
         except OSError:
           pass
         p.wait()
-        rc = -998 if stuck else -999
+        rc = -998 if stuck else (-997 if stalled else -999)
+        if bt:
+          ef.write('\nSTALL-BACKTRACE\n' + bt)
         break
     try:
       os.killpg(p.pid, signal.SIGKILL)      # stray symbolizer children
@@ -136,10 +158,24 @@ def _spawn(cmd, env, stem, log_prefix, timeout):
     err = ''
   if rc == -999:
     err = 'TIMEOUT ' + err
+  if rc == -997:
+    err = 'STALL (no progress for %s s) ' % stall + err
   return rc, err
 
 
-def _run_chunk(module, idxs, jobs, results, asan, tag, chunk_id, timeout, variant_env):
+def _gdb_bt(pid):
+  import shutil
+  if not shutil.which('gdb'):
+    return ''
+  try:
+    p = subprocess.run(['gdb', '-p', str(pid), '-batch', '-ex', 'bt 14'], capture_output=True, text=True, errors='replace',
+                       timeout=90)
+    return '\n'.join(l[:200] for l in p.stdout.split('\n') if l.startswith('#'))
+  except Exception as e:
+    return 'gdb failed: %r' % e
+
+
+def _run_chunk(module, idxs, jobs, results, asan, tag, chunk_id, timeout, variant_env, stall=None):
   todo = list(idxs)
   tmpd = os.path.join(WORK, 'proc', tag)
   os.makedirs(tmpd, exist_ok=True)
@@ -155,7 +191,8 @@ def _run_chunk(module, idxs, jobs, results, asan, tag, chunk_id, timeout, varian
     log_prefix = stem + '.asan'
     env = asan_env(log_prefix) if asan else plain_env()
     env.update(variant_env or {})
-    rc, err = _spawn([sys.executable, '-m', module, jf, of], env, stem, log_prefix if asan else None, timeout)
+    rc, err = _spawn([sys.executable, '-m', module, jf, of], env, stem, log_prefix if asan else None, timeout,
+                     stall=stall, watch=(of, of + '.journal'))
     started = None
     done = set()
     if os.path.exists(of):
@@ -200,12 +237,15 @@ def _run_chunk(module, idxs, jobs, results, asan, tag, chunk_id, timeout, varian
     kind, frame = classify(full)
     if rc == -999 and kind == 'unknown':
       kind = 'timeout'
+    if rc == -997:
+      kind = 'stall'
+      report = (report + '\n' + err[err.find('STALL-BACKTRACE'):])[:8000] if 'STALL-BACKTRACE' in err else report
     results[bad] = dict(ok=False, rc=rc, report=report[:8000], kind=kind, frame=frame, stderr=err[-3000:],
                         journal=journal)
     todo = [i for i in todo if i != bad]
 
 
-def run_jobs(module, jobs, nproc=8, asan=True, tag='X', timeout=1200, env=None):
+def run_jobs(module, jobs, nproc=8, asan=True, tag='X', timeout=1200, env=None, stall=None):
   """Run jobs in supervised worker processes; see module docstring."""
   n = len(jobs)
   results = [None] * n
@@ -215,7 +255,7 @@ def run_jobs(module, jobs, nproc=8, asan=True, tag='X', timeout=1200, env=None):
   chunks = [list(range(c, n, nproc)) for c in range(nproc)]
   ths = []
   for ci, idxs in enumerate(chunks):
-    t = threading.Thread(target=_run_chunk, args=(module, idxs, jobs, results, asan, tag, ci, timeout, env))
+    t = threading.Thread(target=_run_chunk, args=(module, idxs, jobs, results, asan, tag, ci, timeout, env, stall))
     t.start()
     ths.append(t)
   for t in ths:
